@@ -137,60 +137,51 @@ func c16Stat(s annotateast.AnnotateState) string {
 	return fmt.Sprintf("?%T", s)
 }
 
-// c16Norm: the type with singleton MultiTypes, colouring and constant comments forgotten and unions of unions
-// flattened (Spec/AnnGrammar.v: flat (abs t)), serialised as
+// c16Norm: the documented type the tree denotes (Spec/AnnGrammar.v: abs t): singleton MultiTypes, colouring and
+// constant comments forgotten, a parameter typed by the uncoloured default "any" has no type; serialised as
 //   n:<hex> | c:<hex>:<q> | a(t) | t0 | t(k,v) | f(<hex>:<opt>:<t or _>;...)->(t;...) | u[t|t...]
-// returns (text, members if it is a union, is-union)
-func c16Norm(t annotateast.Type) (string, []string, bool) {
+// (a union directly inside a union stays nested)
+func c16Norm(t annotateast.Type) string {
 	switch x := t.(type) {
 	case nil:
-		return "nil", nil, false
+		return "nil"
 	case *annotateast.NormalType:
-		return "n:" + c16h(x.StrName), nil, false
+		return "n:" + c16h(x.StrName)
 	case *annotateast.ConstType:
-		return "c:" + c16h(x.Name) + ":" + c16b(x.QuotesFlag), nil, false
+		return "c:" + c16h(x.Name) + ":" + c16b(x.QuotesFlag)
 	case *annotateast.ArrayType:
-		s, _, _ := c16Norm(x.ItemType)
-		return "a(" + s + ")", nil, false
+		return "a(" + c16Norm(x.ItemType) + ")"
 	case *annotateast.TableType:
 		if x.EmptyFlag {
-			return "t0", nil, false
+			return "t0"
 		}
-		k, _, _ := c16Norm(x.KeyType)
-		v, _, _ := c16Norm(x.ValueType)
-		return "t(" + k + "," + v + ")", nil, false
+		return "t(" + c16Norm(x.KeyType) + "," + c16Norm(x.ValueType) + ")"
 	case *annotateast.FuncType:
 		ps := []string{}
 		for i := range x.ParamNameList {
 			ty := "_"
 			nt, isN := x.ParamTypeList[i].(*annotateast.NormalType)
 			if !(isN && !nt.ShowColor && nt.StrName == "any") {
-				ty, _, _ = c16Norm(x.ParamTypeList[i])
+				ty = c16Norm(x.ParamTypeList[i])
 			}
 			ps = append(ps, c16h(x.ParamNameList[i])+":"+c16b(x.ParamOptionList[i])+":"+ty)
 		}
 		rs := []string{}
 		for _, r := range x.ReturnTypeList {
-			s, _, _ := c16Norm(r)
-			rs = append(rs, s)
+			rs = append(rs, c16Norm(r))
 		}
-		return "f(" + strings.Join(ps, ";") + ")->(" + strings.Join(rs, ";") + ")", nil, false
+		return "f(" + strings.Join(ps, ";") + ")->(" + strings.Join(rs, ";") + ")"
 	case *annotateast.MultiType:
+		if len(x.TypeList) == 1 {
+			return c16Norm(x.TypeList[0])
+		}
 		ms := []string{}
 		for _, c := range x.TypeList {
-			s, mem, isU := c16Norm(c)
-			if isU {
-				ms = append(ms, mem...)
-			} else {
-				ms = append(ms, s)
-			}
+			ms = append(ms, c16Norm(c))
 		}
-		if len(ms) == 1 {
-			return ms[0], nil, false
-		}
-		return "u[" + strings.Join(ms, "|") + "]", ms, true
+		return "u[" + strings.Join(ms, "|") + "]"
 	}
-	return fmt.Sprintf("?%T", t), nil, false
+	return fmt.Sprintf("?%T", t)
 }
 
 // case: comma separated hex lines (the CommentLine.Str values, i.e. the comment text after the leading "--");
@@ -322,7 +313,6 @@ func init() {
 		if !ok || len(ts2.ListType) != 1 {
 			return c16h(printed) + " NONE -"
 		}
-		n, _, _ := c16Norm(ts2.ListType[0])
-		return c16h(printed) + " " + n + " " + c16h(ts2.Comment)
+		return c16h(printed) + " " + c16Norm(ts2.ListType[0]) + " " + c16h(ts2.Comment)
 	})
 }
